@@ -33,7 +33,8 @@
      - tokens with a non-white-space character in the modes whose character arm answers SplitWhitespace (initial,
        before html, before head, in head, in head noscript, after head, in column group, after body, after after body,
        in frameset, after frameset, after after frameset): the runs of a ++ b are not those of a followed by those
-       of b; plan in the header of TreeSplitEarly.v;
+       of b; plan in the header of TreeSplitEarly.v (proved of it, outside this side condition: the cut at the end of
+       the first run, TreeSplitBoundary.v);
      - a template element as the current node: same argument as "in body" with the two closed forms of
        sink_get_template_contents (first fetch: the sink view grows by one entry, so ename_of / named / adjusted_ns /
        hshape_b of the later states need nth (l ++ [None]) lemmas instead of conversion; later fetches: found in
